@@ -17,10 +17,13 @@ LAYOUTS = {
     "except_pass": ["try:", "    pass", "except Exception:", "    pass"],
     "nested_later_line": ["subprocess.Popen('ls',", "                 shell=True, env=pickle.loads(blob))"],
     "nested_three": ["subprocess.call(cmd,", "                input=pickle.loads(b),", "                shell=True)"],
+    # rules whose registered NAME contains capitals (seeded change C02-m4 lower-cased the queried name only)
+    "et_parse": ["t = xml.etree.cElementTree.parse(", "    src) or xml.etree.ElementTree.parse(src) or subprocess.Popen(c, shell=True)"],
 }
 # the test IDs each layout triggers (for targeted two-comment enumeration)
 LAYOUT_IDS = {"one_line": ["B101", "B602", "B607"], "four_lines": ["B101", "B602", "B607"], "nested_later_line": ["B602", "B607", "B301"],
-              "nested_three": ["B602", "B301"], "password_kw": ["B106", "B104"], "call_stmt": ["B602", "B607"], "str_in_dict": ["B105", "B108"]}
+              "nested_three": ["B602", "B301"], "password_kw": ["B106", "B104"], "call_stmt": ["B602", "B607"], "str_in_dict": ["B105", "B108"],
+              "et_parse": ["B313", "B314", "B602"]}
 PRELUDE = ["import subprocess", "import pickle"]
 
 TESTS_TEXTS = [
@@ -29,6 +32,7 @@ TESTS_TEXTS = [
     " assert_used, B602", " B101 because it is fine", " because reasons", " B999", " B101 B999", " b101", " B104", " B105 B106",
     " hardcoded_password_funcarg", " hardcoded_bind_all_interfaces,hardcoded_password_funcarg", " B301", " pickle", " B403 B301",
     " B110", " try_except_pass", " B001", " blacklist",
+    " xml_bad_cElementTree", " xml_bad_ElementTree", " xml_bad_cElementTree, B602", " B313", " B314 xml_bad_cElementTree", " XML_BAD_CELEMENTTREE", " Assert_Used",
 ]
 PREFIXES = ["# nosec", "#nosec", "#  nosec", "# noqa # nosec", "# type: ignore # nosec", "# pragma: no cover  #nosec"]
 SUFFIXES = ["", " # noqa", " # pylint: disable=all"]
@@ -82,6 +86,8 @@ def build_cases(res, rng, thorough):
         ("four_lines", {1: "# nosec"}), ("four_lines", {0: "# nosec"}), ("four_lines", {6: "# nosec"}), ("two_lines", {3: "# nosec: B602"}),
         ("password_kw", {3: "# nosec B106"}), ("password_kw", {4: "# nosec"}), ("str_in_dict", {3: "# nosec"}), ("str_in_dict", {4: "# nosec B108"}),
         ("except_pass", {4: "# nosec"}), ("except_pass", {5: "# nosec B110"}), ("pickle_two", {2: "# nosec B301"}), ("pickle_two", {3: "# nosec pickle"}),
+        ("et_parse", {2: "# nosec xml_bad_cElementTree"}), ("et_parse", {3: "# nosec xml_bad_ElementTree"}), ("et_parse", {2: "# nosec B313", 3: "# nosec xml_bad_ElementTree"}),
+        ("et_parse", {3: "# nosec B101, xml_bad_ElementTree"}), ("et_parse", {2: "# nosec xml_bad_celementtree"}),
     ]
     for lay, cm in corpus:
         cases.append((lay, cm, "corpus"))
